@@ -23,6 +23,12 @@ CLAIMS = {
          "route, fallback exactly once, last, on the handed-on connection, only when all remaining routes are decided 'no' on the current stream); fallback wiring of "
          "subroute/server/listener wrapper. Verdicts of real matchers and longer route lists are not decided.",
          "DESIGN.md section 4 C02"),
+ "C05": ("provenance dataflow + bounded abstract interpretation of the route handler (deadline typestate on every path) + finite-predicate path evaluation of prefetch",
+         "Decided for every path of the code: the matching deadline is computed once from time.Now()+timeout outside all loops; on every explored path of the compiled "
+         "route handler (0..3 routes, all outcomes of matchers/prefetch/handlers) it is armed at each prefetch and cleared at each handler chain and at the fallback; "
+         "failed matching runs nothing further and the connection's Close is deferred first; prefetch reads at most one chunk and only below the limit regardless of the cursor; "
+         "the emulated UDP deadline keeps sub-second resolution. Wall-clock bounds themselves are not decided.",
+         "DESIGN.md section 4 C05"),
 }
 
 checks = []
